@@ -92,9 +92,17 @@ def _wrap(rng, cirq, op, E, qids, shape, desc):
         return new, L.controlled(E, cdims, allowed), cq + list(qids), tuple(cdims) + tuple(shape)
     if kind == 4:
         # a CircuitOperation reports its qubits in sorted order: predict the matrix on that order
-        desc.append("CircuitOperation")
         order = sorted(range(n), key=lambda i: qids[i])
-        return (cirq.CircuitOperation(cirq.FrozenCircuit(op)), L.permute_wires(E, order, shape),
+        reps = 1
+        if rng.random() < 0.5:
+            # repeated / inverted sub-circuit: the body's matrix to that integer power
+            reps = int([2, 3, 0, -1, -2, -3][int(rng.integers(6))])
+            if reps < 0 and cirq.inverse(op, None) is None:
+                reps = -reps
+        desc.append("CircuitOperation" if reps == 1 else "CircuitOperation(repetitions=%d)" % reps)
+        Er = np.linalg.matrix_power(np.asarray(E, dtype=complex).conj().T if reps < 0 else np.asarray(E, dtype=complex), abs(reps))
+        kw = {} if reps == 1 else {"repetitions": reps}
+        return (cirq.CircuitOperation(cirq.FrozenCircuit(op), **kw), L.permute_wires(Er, order, shape),
                 [qids[i] for i in order], tuple(shape[i] for i in order))
     if kind == 5 and n >= 1:
         # transform_qubits to fresh qids of the same dimension
